@@ -291,3 +291,254 @@ Proof.
   cbv zeta. split; [exact cis6_ok|]. repeat split; vm_compute; reflexivity.
 Qed.
 Print Assumptions C13_model_run_total_refuted_without_registration.
+
+(* ================================================================================================================ *)
+(* entity level, LOCKED: the refinement of C05 (lock / unlock, commands recorded per thread, the flush at the outermost  *)
+(* unlock) WITH declared dependencies                                                                                *)
+(* proofs/DepsAlgebra.v, DepsPack.v, DepsFlush.v, DepsLocked.v, DepsLockedMain.v.
+   The invariant LInv / the relation LR of the locked refinement (proofs/ManagerLInv.v, ManagerLocked.v; they bake in "no
+   dependencies") are transported along "erase the table" exactly as MInv was for C13_entity_level: the structural
+   primitives and the recording operations commute with the erasure (DepsFrame.v, DepsLocked.step_sd), so the step lemmas
+   of C05 are reused unchanged for destroy, destroyNow, update, lock, nested unlock and everything recorded under lock; the
+   unlocked create / assign / remove / declaration go through the step lemma of C13 (DepsMain.DInv_step).
+   What is new is the flush.  applyCommandPack computes ONE raw final mask for the pack and closes it under the
+   dependencies once (Manager.apply_pack: get_arch on the final mask); the specification applies the commands one at a
+   time and closes at each assignment (MgrSpec.x_assign / widen).  The loop invariant (DepsPack.pack_loop_sim_d) between
+   the raw mask fm, the components assigned so far am, the removals X still binding, and the specification's closed set sm:
+        fm <= sm <= closure (fm + am)      and      sm <= fm + X + closure am;
+   when the write loop of applyCommandPack does not end in Err every assigned component is in the final archetype, hence
+   closure (final + assigned) = closure final and the two sets are equal; values: a component the pack assigns carries
+   the last assigned value, one the entity had keeps its value, one that came through a closure has its default.
+   THE CONDITION (DepsAlgebra.cmd_ok / run_ok / buf_ok, decidable, checked on the specification's buffers at the
+   outermost unlock by DepsLocked.sched_ok): inside one run of commands of one thread on one entity, once "remove y" has
+   been recorded no LATER command of the run names a component m <> y that (directly or transitively) requires y --
+     (a) not "assign m": the specification re-creates y with its default value, applyCommandPack moves the old value
+         (the open finding pack-remove-then-assign-master, C13_pack_remove_then_assign_master_refuted above);
+     (b) not "remove m": for the specification the removal of y did nothing while m was there and y stays when m goes;
+         applyCommandPack drops both (a relative of (a) found here: C13_pack_remove_dependent_then_master_refuted);
+   a later "assign y" ends the obligation for y.  Both clauses are needed (witnesses below); commands of other threads,
+   or separated by a command on another entity, are other packs and are not concerned.
+   Two further side conditions of sched_ok are restrictions of THIS PROOF, not known divergences: declarations are made
+   while the manager is not locked (and leave live entities closed, as in C13_entity_level), and create(Archetype&) under
+   lock names a closed set (the model records the archetype's closed mask, the specification the requested one). *)
+From Mustache.proofs Require Import DepsAlgebra DepsPack DepsFlush DepsLocked DepsLockedMain.
+
+(* THE statement of Refine.v for the alphabet with lock / unlock and declarations *)
+Theorem C13_locked_entity_level : forall typed n cis ops s hs,
+  cis_ok cis -> forallb (alphaL_d cis) ops = true -> sched_ok (x_init n cis) ops = true ->
+  mrun typed n cis ops = Ok (s, hs) -> x_viol (xrun n cis ops) = 0 -> (N.of_nat (length hs) < 16777000)%N ->
+  refines_on typed n cis ops = true.
+Proof. exact locked_deps_refines_on. Qed.
+Print Assumptions C13_locked_entity_level.
+
+(* handle by handle, at every point of a script (also in the middle of a locked section) *)
+Theorem C13_locked_entity_level_pointwise : forall typed n cis ops s hs,
+  cis_ok cis -> forallb (alphaL_d cis) ops = true -> sched_ok (x_init n cis) ops = true ->
+  mrun typed n cis ops = Ok (s, hs) -> x_viol (xrun n cis ops) = 0 -> (N.of_nat (length hs) < 16777000)%N ->
+  length hs = x_count (xrun n cis ops) /\
+  forall k,
+    match find_ent (xrun n cis ops) k with
+    | Some e => exists e', abs_ent s k (nth k hs null_handle) = Some e' /\ ent_match e e' = true
+    | None => abs_ent s k (nth k hs null_handle) = None
+    end.
+Proof. exact locked_deps_refinement. Qed.
+Print Assumptions C13_locked_entity_level_pointwise.
+
+(* "through a deferred command": after the unlock (at every point of the script) the two tables are equal and every
+   live entity -- whether it gained a master through a recorded creation, a recorded assignment, or unlocked -- has every
+   stored dependent of each of its components *)
+Theorem C13_deferred_gain_has_dependents : forall typed n cis ops s hs,
+  cis_ok cis -> forallb (alphaL_d cis) ops = true -> sched_ok (x_init n cis) ops = true ->
+  mrun typed n cis ops = Ok (s, hs) -> x_viol (xrun n cis ops) = 0 -> (N.of_nat (length hs) < 16777000)%N ->
+  deps s = x_deps (xrun n cis ops) /\
+  forall k e, find_ent (xrun n cis ops) k = Some e ->
+  forall c dm, c < MASK_BITS -> dep_find (deps s) c = Some dm -> has_comp (e_comps e) c = true ->
+  forall c', mhas dm c' = true -> has_comp (e_comps e) c' = true.
+Proof. exact locked_deps_entities_closed. Qed.
+Print Assumptions C13_deferred_gain_has_dependents.
+
+(* the relation along every script, and THE FLUSH: from related states the flush of the recorded buffers reaches the state
+   of the specification's x_flush, under the pack condition on every buffer *)
+Theorem C13_locked_run_related : forall typed n cis ops s hs,
+  cis_ok cis -> forallb (alphaL_d cis) ops = true -> sched_ok (x_init n cis) ops = true ->
+  mrun typed n cis ops = Ok (s, hs) -> x_viol (xrun n cis ops) = 0 -> (N.of_nat (length hs) < 16777000)%N ->
+  DLR cis s hs (xrun n cis ops).
+Proof. exact locked_deps_run_related. Qed.
+Print Assumptions C13_locked_run_related.
+
+Theorem C13_locked_flush_faithful : forall cis s hs x s',
+  DLR cis s hs x -> cis_ok cis -> (N.of_nat (length hs) < 16777000)%N ->
+  forallb (buf_ok (x_deps x) None []) (x_bufs x) = true ->
+  x_viol (x_flush (xw_lock x 0)) = x_viol x ->
+  flush (set_lock s 0) = Ok s' -> DLR cis s' hs (x_flush (xw_lock x 0)).
+Proof. exact flush_faithful_d. Qed.
+Print Assumptions C13_locked_flush_faithful.
+
+(* no side condition on the packs when no removeComponent is recorded under lock: every creation and assignment made
+   through a deferred command closes its entity exactly as the immediate ones do *)
+Theorem C13_no_recorded_removal_suffices : forall typed n cis ops s hs,
+  cis_ok cis -> forallb (alphaL_d cis) ops = true -> sched_nr (x_init n cis) ops = true ->
+  mrun typed n cis ops = Ok (s, hs) -> x_viol (xrun n cis ops) = 0 -> (N.of_nat (length hs) < 16777000)%N ->
+  refines_on typed n cis ops = true.
+Proof. exact no_recorded_removal_refines. Qed.
+Print Assumptions C13_no_recorded_removal_suffices.
+
+(* ---- the hypotheses are satisfiable ---- *)
+(* six instrumented types: every one has a default value, so a wrong value is visible *)
+Definition cisW : list cinfo := [pal_info 2 0; pal_info 2 0; pal_info 3 0; pal_info 5 0; pal_info 13 0; dyn_info 8 33].
+Lemma cisW_ok : cis_ok cisW.
+Proof. unfold cis_ok, cisW. repeat constructor; simpl; intros; congruence. Qed.
+
+(* a chain 0 -> 1 -> 2 and a diamond 5 -> {1, 3} (1 -> 2 again); three entities; under lock, from two worker threads:
+   master 0 assigned to the existing entity #0; entity #3 created in the section and given the diamond master 5;
+   a dependent (1) of a master that stays (0) removed from #2: no effect; #1 loses its master 1 (its dependent 2 stays)
+   and gains 3 with a value; a nested lock with one more assignment *)
+Definition script_ld : list xop :=
+  [XoDep 0 2; XoDep 1 4; XoDep 5 10;
+   XoCreate 0 8 [] false; XoCreate 0 6 [] false; XoSet 1 2 43%Z; XoCreate 0 3 [] false;
+   XoLock;
+   XoAssign 1 0 0 (Some 7%Z);
+   XoCreate 2 16 [] false; XoAssign 2 3 5 None;
+   XoRemove 1 2 1 true;
+   XoRemove 2 1 1 true; XoAssign 2 1 3 (Some 9%Z);
+   XoLock; XoAssign 1 2 4 None; XoUnlock;
+   XoUnlock]%N.
+
+Example C13_locked_nonvacuous :
+  cis_ok cisW /\ forallb (alphaL_d cisW) script_ld = true /\ sched_ok (x_init 4 cisW) script_ld = true /\
+  x_viol (xrun 4 cisW script_ld) = 0 /\
+  (forall typed, exists s hs, mrun typed 4 cisW script_ld = Ok (s, hs) /\ (N.of_nat (length hs) < 16777000)%N /\
+                              map (is_valid s) hs = [true; true; true; true] /\ deps s = [(0, 2%N); (1, 4%N); (5, 14%N)]) /\
+  map (fun e => (e_k e, e_comps e)) (x_ents (xrun 4 cisW script_ld)) =
+    [(0, [(0, Some 7%Z); (1, Some 1002%Z); (2, Some 1003%Z); (3, Some 1005%Z)]);
+     (2, [(0, Some 1002%Z); (1, Some 1002%Z); (2, Some 1003%Z); (4, Some 1013%Z)]);
+     (3, [(1, Some 1002%Z); (2, Some 1003%Z); (3, Some 1005%Z); (4, Some 1013%Z); (5, Some 1008%Z)]);
+     (1, [(2, Some 43%Z); (3, Some 9%Z)])].
+Proof.
+  split; [exact cisW_ok|]. split; [vm_compute; reflexivity|]. split; [vm_compute; reflexivity|]. split; [vm_compute; reflexivity|]. split.
+  - intros typed. destruct typed; eexists; eexists; (split; [vm_compute; reflexivity|]); (split; [vm_compute; reflexivity|]); split; vm_compute; reflexivity.
+  - vm_compute. reflexivity.
+Qed.
+
+(* the theorems applied (not evaluated) to script_ld *)
+Example C13_locked_entity_level_on_script : forall typed, refines_on typed 4 cisW script_ld = true.
+Proof.
+  intros typed. destruct C13_locked_nonvacuous as (Hok & Ha & Hso & Hv & Hrun & _). destruct (Hrun typed) as (s & hs & Hr & Hb & _).
+  exact (C13_locked_entity_level typed 4 cisW script_ld s hs Hok Ha Hso Hr Hv Hb).
+Qed.
+
+Definition state_ld : mst := match mrun true 4 cisW script_ld with Ok (s, _) => s | Err _ => init 4 cisW end.
+Definition handles_ld : list handle := match mrun true 4 cisW script_ld with Ok (_, hs) => hs | Err _ => [] end.
+
+(* entity #3 was created under lock with {4} and assigned the diamond master 5 by a recorded command: through the model's
+   own hasComponent it has 5 and every stored dependent of 5 (1, 2, 3) *)
+Example C13_deferred_gain_nonvacuous :
+  exists dm, dep_find (deps state_ld) 5 = Some dm /\ mhas dm 1 = true /\ mhas dm 2 = true /\ mhas dm 3 = true /\
+    (exists e, find_ent (xrun 4 cisW script_ld) 3 = Some e /\ has_comp (e_comps e) 5 = true) /\
+    map (fun c => step state_ld (OHas (nth 3 handles_ld null_handle) c)) [5; 1; 2; 3] =
+      map (fun _ => Ok (state_ld, RBool true)) [5; 1; 2; 3].
+Proof. eexists. split; [vm_compute; reflexivity|]. repeat split; try (vm_compute; reflexivity). eexists. split; vm_compute; reflexivity. Qed.
+
+(* a reachable LOCKED state (script_ld without its last unlock): related by the theorem; its buffers satisfy the pack
+   condition, its flush stays inside the contract and succeeds *)
+Definition script_lk : list xop := removelast script_ld.
+Definition st_lk : mst := match mrun true 4 cisW script_lk with Ok (s, _) => s | Err _ => init 4 cisW end.
+Definition hs_lk : list handle := match mrun true 4 cisW script_lk with Ok (_, hs) => hs | Err _ => [] end.
+Lemma run_lk : mrun true 4 cisW script_lk = Ok (st_lk, hs_lk).
+Proof. vm_compute. reflexivity. Qed.
+
+Example C13_locked_flush_nonvacuous :
+  DLR cisW st_lk hs_lk (xrun 4 cisW script_lk) /\ (N.of_nat (length hs_lk) < 16777000)%N /\ x_lock (xrun 4 cisW script_lk) = 1 /\
+  forallb (buf_ok (x_deps (xrun 4 cisW script_lk)) None []) (x_bufs (xrun 4 cisW script_lk)) = true /\
+  x_viol (x_flush (xw_lock (xrun 4 cisW script_lk) 0)) = x_viol (xrun 4 cisW script_lk) /\
+  (exists s', flush (set_lock st_lk 0) = Ok s') /\
+  x_bufs (xrun 4 cisW script_lk) =
+    [[]; [XAssign 0 0 (Some 7%Z); XRemove 2 1; XAssign 2 4 None];
+     [XCreate 3 16%N []; XAssign 3 5 None; XRemove 1 1; XAssign 1 3 (Some 9%Z)]; []].
+Proof.
+  assert (Hb : (N.of_nat (length hs_lk) < 16777000)%N) by (vm_compute; reflexivity).
+  assert (Hv : x_viol (xrun 4 cisW script_lk) = 0) by (vm_compute; reflexivity).
+  split; [apply (C13_locked_run_related true 4 cisW script_lk st_lk hs_lk cisW_ok); [vm_compute; reflexivity|vm_compute; reflexivity|exact run_lk|exact Hv|exact Hb]|].
+  split; [exact Hb|]. split; [vm_compute; reflexivity|]. split; [vm_compute; reflexivity|]. split; [vm_compute; reflexivity|]. split; [vm_compute; eauto|].
+  vm_compute. reflexivity.
+Qed.
+
+(* a script without recorded removals: the side condition without any check of the buffers *)
+Definition script_nr : list xop :=
+  [XoDep 0 2; XoDep 1 4; XoCreate 0 8 [] false; XoRemove 0 0 3 true; XoLock; XoAssign 1 0 0 None; XoCreate 1 1 [] false; XoAssign 1 1 5 None; XoUnlock]%N.
+Example C13_no_recorded_removal_nonvacuous :
+  forallb (alphaL_d cisW) script_nr = true /\ sched_nr (x_init 4 cisW) script_nr = true /\ x_viol (xrun 4 cisW script_nr) = 0 /\
+  (exists s hs, mrun true 4 cisW script_nr = Ok (s, hs) /\ (N.of_nat (length hs) < 16777000)%N) /\
+  map (fun e => (e_k e, map fst (e_comps e))) (x_ents (xrun 4 cisW script_nr)) = [(0, [0; 1; 2]); (1, [0; 1; 2; 5])].
+Proof. split; [vm_compute; reflexivity|]. split; [vm_compute; reflexivity|]. split; [vm_compute; reflexivity|]. split; [eexists; eexists; (split; [vm_compute; reflexivity|]); vm_compute; reflexivity|vm_compute; reflexivity]. Qed.
+
+(* ---- both clauses of the pack condition are needed ---- *)
+(* each witness: inside the alphabet, inside the contract (x_viol = 0), the model run does not end in Err, every other
+   side condition holds (declarations first, no create(Archetype&)), ONE pair "remove y ... later command on m" in one
+   pack -- the condition fails and so does the refinement *)
+(* (a) remove y = 1, then assign its master m = 3: entity #0 keeps the value 77 of component 1; the specification has
+       re-created it with its default 1002 *)
+Definition script_wa : list xop :=
+  [XoDep 3 2; XoCreate 0 2 [] false; XoSet 0 1 77%Z; XoLock; XoRemove 0 0 1 true; XoAssign 0 0 3 None; XoUnlock]%N.
+(* (b) remove the dependent y = 1 of the present master m = 3, then remove m: the specification keeps component 1, the
+       model drops both *)
+Definition script_wb : list xop :=
+  [XoDep 3 2; XoCreate 0 8 [] false; XoLock; XoRemove 0 0 1 true; XoRemove 0 0 3 true; XoUnlock]%N.
+
+Theorem C13_pack_condition_clauses_needed :
+  (forallb (alphaL_d cisW) script_wa = true /\ x_viol (xrun 4 cisW script_wa) = 0 /\ (exists s hs, mrun true 4 cisW script_wa = Ok (s, hs)) /\
+   cmd_ok (x_deps (xrun 4 cisW script_wa)) [1] (XAssign 0 3 None) = false /\ sched_ok (x_init 4 cisW) script_wa = false /\
+   refines_on true 4 cisW script_wa = false) /\
+  (forallb (alphaL_d cisW) script_wb = true /\ x_viol (xrun 4 cisW script_wb) = 0 /\ (exists s hs, mrun true 4 cisW script_wb = Ok (s, hs)) /\
+   cmd_ok (x_deps (xrun 4 cisW script_wb)) [1] (XRemove 0 3) = false /\ sched_ok (x_init 4 cisW) script_wb = false /\
+   refines_on true 4 cisW script_wb = false).
+Proof.
+  split; (split; [vm_compute; reflexivity|]); (split; [vm_compute; reflexivity|]); (split; [eexists; eexists; vm_compute; reflexivity|]);
+    (split; [vm_compute; reflexivity|]); split; vm_compute; reflexivity.
+Qed.
+Print Assumptions C13_pack_condition_clauses_needed.
+
+(* (b) as a theorem about the faithful model, next to C13_pack_remove_then_assign_master_refuted *)
+Theorem C13_pack_remove_dependent_then_master_refuted :
+  exists ops, x_viol (xrun 4 cisW ops) = 0 /\ refines_on true 4 cisW ops = false /\
+    map (fun e => (e_k e, map fst (e_comps e))) (x_ents (xrun 4 cisW ops)) = [(0, [1])] /\
+    exists s hs, mrun true 4 cisW ops = Ok (s, hs) /\ step s (OHas (nth 0 hs null_handle) 1) = Ok (s, RBool false).
+Proof.
+  exists script_wb. split; [vm_compute; reflexivity|]. split; [vm_compute; reflexivity|]. split; [vm_compute; reflexivity|].
+  eexists. eexists. split; vm_compute; reflexivity.
+Qed.
+Print Assumptions C13_pack_remove_dependent_then_master_refuted.
+
+(* what the condition does NOT exclude (the theorem applies, and the evaluation agrees): the same commands from two
+   threads (two packs); remove y, assign y again, then assign the master; assign the master, then remove the dependent;
+   remove a dependent whose master stays *)
+Example C13_pack_condition_accepts :
+  let two_threads := [XoDep 3 2; XoCreate 0 2 [] false; XoSet 0 1 77%Z; XoLock; XoRemove 0 0 1 true; XoAssign 1 0 3 None; XoUnlock]%N in
+  let reassigned := [XoDep 3 2; XoCreate 0 2 [] false; XoSet 0 1 77%Z; XoLock; XoRemove 0 0 1 true; XoAssign 0 0 1 (Some 5%Z); XoAssign 0 0 3 None; XoUnlock]%N in
+  let master_first := [XoDep 3 2; XoCreate 0 1 [] false; XoLock; XoAssign 0 0 1 (Some 5%Z); XoAssign 0 0 3 None; XoRemove 0 0 1 true; XoUnlock]%N in
+  let master_stays := [XoDep 3 2; XoCreate 0 8 [] false; XoLock; XoRemove 0 0 1 true; XoUnlock]%N in
+  forallb (fun ops => sched_ok (x_init 4 cisW) ops && refines_on true 4 cisW ops && Nat.eqb (x_viol (xrun 4 cisW ops)) 0)
+          [two_threads; reassigned; master_first; master_stays] = true.
+Proof. vm_compute. reflexivity. Qed.
+
+(* without declarations all side conditions hold by themselves: the theorem contains C05_locked_refines_on (Properties_C05.v)
+   for creation masks inside the 128 bits of the bitset *)
+Theorem C13_locked_contains_C05 : forall typed n cis ops s hs,
+  cis_ok cis -> forallb (alphaL_d cis) ops = true -> forallb not_dep ops = true ->
+  mrun typed n cis ops = Ok (s, hs) -> x_viol (xrun n cis ops) = 0 -> (N.of_nat (length hs) < 16777000)%N ->
+  refines_on typed n cis ops = true.
+Proof. exact locked_nodeps_refines_on. Qed.
+Print Assumptions C13_locked_contains_C05.
+
+(* a script of the C05 alphabet: assign-remove-assign of one component in one pack, a create + destroyNow pack, two threads *)
+Definition script_c05 : list xop :=
+  [XoCreate 0 1 [] false; XoLock; XoAssign 1 0 1 (Some 5%Z); XoRemove 1 0 1 true; XoAssign 1 0 1 (Some 6%Z);
+   XoCreate 2 4 [] false; XoDestroyNow 2 1; XoRemove 2 0 0 true; XoUnlock]%N.
+Example C13_locked_contains_C05_nonvacuous :
+  forallb (alphaL_d cisW) script_c05 = true /\ forallb not_dep script_c05 = true /\ x_viol (xrun 4 cisW script_c05) = 0 /\
+  (exists s hs, mrun true 4 cisW script_c05 = Ok (s, hs) /\ (N.of_nat (length hs) < 16777000)%N) /\
+  map (fun e => (e_k e, e_comps e)) (x_ents (xrun 4 cisW script_c05)) = [(0, [(1, Some 6%Z)])].
+Proof.
+  split; [vm_compute; reflexivity|]. split; [vm_compute; reflexivity|]. split; [vm_compute; reflexivity|].
+  split; [eexists; eexists; (split; [vm_compute; reflexivity|]); vm_compute; reflexivity|vm_compute; reflexivity].
+Qed.
